@@ -100,7 +100,7 @@ def direct_contracts(text, kind, out, rec=None):
             removed = l[len(ol):]
             if removed and not removed.isspace():
                 return "trim: removed non-whitespace %r" % removed
-            if ol.endswith((" ", "\t")):
+            if ol != ol.rstrip():   # whitespace = str.isspace(), Python's (and the regex engine's \s) definition
                 return "trim: trailing whitespace left in %r" % ol
         return None
     m = re.fullmatch(r"(?:trim_)?lim(\d+)", kind)
@@ -241,7 +241,8 @@ def copy_path_cases(ctx):
     r = random.Random("c15copy/%s" % ctx.seed)
     texts = ["", "a", "a\n", "a\nb", "a \n\n\n\nb  ", "x\r\ny\r\n", "x\r\ny", " \n \n", "\n", "\n\n\nq", "tab\t\nend\t"]
     for _ in range(ctx.pick(150, 3000)):
-        texts.append("".join(r.choice(["a", "b", " ", "\t", "\n", "\n", "\r\n", "é", "#x"]) for _ in range(r.randint(0, 40))))
+        texts.append("".join(r.choice(["a", "b", " ", "\t", "\n", "\n", "\r\n", "é", "#x", "\r", "\r", "\xa0", "\u2003", "\x0c", "\x0b", "\x1c", "\u2028", "\x85"])
+                             for _ in range(r.randint(0, 40))))
     for i, text in enumerate(texts):
         for kind in ["ident", "trim", "lim1", "trim_lim1"]:
             src = pathlib.Path(d) / "src.h"
@@ -314,7 +315,7 @@ def real_schedule_cases(ctx):
         # with the trim-only contract here, and the replays below use fresh processors.
         ctx.count("evaluations")
         why = None
-        if re.search(r"[ \t]+(\r?\n|$)", written):
+        if any(l != l.rstrip() for l, t in split_lines(written)):
             why = "real call site left trailing whitespace"
         if [l for l, t in split_lines(written) if l] != [l.rstrip() for l, t in split_lines(text) if l.rstrip()]:
             why = "real call site altered/dropped a non-empty line"
@@ -383,4 +384,4 @@ def run(ctx):
     ctx.require("copy_cases", 40)
     ctx.require("real_files", 10)
     ctx.assumptions += ["line terminators are LF and CRLF only (the code's own definition); lone CR, VT, FF, U+2028 are ordinary characters",
-                        "whitespace for trimming: at least space and tab must go; anything removed must satisfy str.isspace()"]
+                        "whitespace for trimming is str.isspace() (identical to the regex engine's \\s for str patterns)"]
